@@ -74,6 +74,50 @@ pub fn generate(opts: &Opts, sink: &mut CaseSink) {
                   json!({"kind": if broadcast {"broadcast"} else {"split"}, "downstream_replicas": blocks, "input": format!("{:?}", script), "received": format!("{:?}", recv)}), nd >= 3);
     }
     generate_routes(opts, sink, &mut rng);
+    for (i, n) in [200i64, 37].iter().enumerate() {
+        let pairs = zip_job(*n, opts.seed + i as u64).unwrap_or_else(|m| { eprintln!("C09 zip job: {m}"); vec![] });
+        sink.count("zip_job_two_hosts");
+        sink.push(format!("(CZipJob {} [{}])", n, pairs.iter().map(|(a, b)| format!("({}, {})", a, b)).collect::<Vec<_>>().join("; ")),
+                  json!({"kind": "zip of two one-per-host replicated streams on 2 hosts x 2 cores", "n": n, "pairs": pairs.len()}), true);
+    }
+}
+
+/// zip on two hosts with inputs replicated one-per-host: the zip block must still be ONE replica
+fn zip_job(n: i64, seed: u64) -> Result<Vec<(i64, i64)>, String> {
+    use renoir::config::ConfigBuilder;
+    use renoir::{Replication, StreamContext};
+    let (tx, rx) = std::sync::mpsc::channel::<Result<Option<Vec<(i64, i64)>>, String>>();
+    for h in 0..2u64 {
+        let tx = tx.clone();
+        std::thread::spawn(move || {
+            let r = crate::script::catch(move || {
+                let mut toml = String::new();
+                for i in 0..2 { toml.push_str(&format!("[[host]]\naddress = \"127.204.{}.{}\"\nbase_port = 24400\nnum_cores = 2\n\n", seed % 250, i + 1)); }
+                let mut b = ConfigBuilder::new_remote();
+                b.parse_toml_str(&toml).unwrap();
+                b.host_id(h);
+                let env = StreamContext::new(b.build().unwrap());
+                // left: everything on one host's replica; right: spread over both hosts
+                let a = env.stream_iter(0..n).repartition_by(Replication::Host, |_x: &i64| 0u64);
+                let b2 = env.stream_iter(1000..1000 + n).repartition_by(Replication::Host, |x: &i64| *x as u64);
+                let out = a.zip(b2).collect_vec();
+                env.execute_blocking();
+                out.get()
+            });
+            let _ = tx.send(r);
+        });
+    }
+    drop(tx);
+    let mut res = None;
+    for _ in 0..2 {
+        match rx.recv_timeout(std::time::Duration::from_secs(60)) {
+            Ok(Ok(Some(v))) => res = Some(v),
+            Ok(Ok(None)) => {}
+            Ok(Err(m)) => return Err(m),
+            Err(_) => return Err("hang".into()),
+        }
+    }
+    res.ok_or_else(|| "no result".to_string())
 }
 
 /// route: the real `RoutingEnd` towards 1..4 routes (first matching predicate wins, elements
@@ -96,4 +140,4 @@ pub fn generate_routes(opts: &Opts, sink: &mut CaseSink, rng: &mut Rng) {
     }
 }
 
-pub const RULE: &str = "zip and merge behind the real two-input Start: 1..3 replicas per side, 1..3 rounds, unequal lengths, empty sides, every interleaving of the two sides (one side running ahead), timestamped and plain; broadcast: the real End with the All strategy towards 1..5 replicas; split: the real End towards 2..4 downstream blocks (branches); route: the real RoutingEnd towards 1..4 routes with predicates v mod m = r (overlapping, always-true and never-true ones included), every batch mode incl. adaptive under a mock clock, exact batch sequences. Non-trivial: >=2 pairs/elements (>=3 data elements for fan-out); distinct = distinct case terms";
+pub const RULE: &str = "zip and merge behind the real two-input Start: 1..3 replicas per side, 1..3 rounds, unequal lengths, empty sides, every interleaving of the two sides (one side running ahead), timestamped and plain; broadcast: the real End with the All strategy towards 1..5 replicas; split: the real End towards 2..4 downstream blocks (branches); route: the real RoutingEnd towards 1..4 routes with predicates v mod m = r (overlapping, always-true and never-true ones included), every batch mode incl. adaptive under a mock clock, exact batch sequences; zip job: two streams replicated one-per-host on 2 hosts zipped (the zip block must have one replica). Non-trivial: >=2 pairs/elements (>=3 data elements for fan-out); distinct = distinct case terms";
